@@ -57,22 +57,6 @@ SpecDec(pos, b) ==
 
 SignedTags == { Tg.b, Tg.s, Tg.I, Tg.l }
 
-\* documented exceptions of C10: a timestamp after 2106-02-07 (read back as milliseconds by design),
-\* a table key longer than 128 characters (truncated with a logged warning)
-RECURSIVE Exempt10(_)
-Exempt10(v) ==
-    CASE v.t \in {"dt", "st"} -> LET ep == DtEpoch(v) IN ~ep.neg /\ CmpMag(ep.mag, MaxSeconds32) > 0
-      [] v.t = "table" -> \E i \in 1..Len(v.e) : Len(v.e[i].k) > 128 \/ Exempt10(v.e[i].v)
-      [] v.t = "array" -> \E i \in 1..Len(v.e) : Exempt10(v.e[i])
-      [] OTHER -> FALSE
-
-RECURSIVE KeysAscending(_)
-KeysAscending(v) ==
-    CASE v.t = "table" -> /\ \A i \in 1..(Len(v.e) - 1) : TextLess(v.e[i].k, v.e[i+1].k)
-                          /\ \A i \in 1..Len(v.e) : KeysAscending(v.e[i].v)
-      [] v.t = "array" -> \A i \in 1..Len(v.e) : KeysAscending(v.e[i])
-      [] OTHER -> TRUE
-
 \* C10 on typed arguments: bool and int compare numerically (True == 1 is not corruption), a bit
 \* argument carries the truth value of what was passed, a falsy non-table where a table is expected
 \* is the documented "None == empty table" generalised
